@@ -181,6 +181,29 @@ def install_crosshair_patches():
 
     _core._PATCH_REGISTRATIONS[format] = fmt
 
+    # dict(mapping): CrossHair returns its ShellMutableMap, whose item assignment moves an existing key to the end -
+    # real dicts keep the position.  For plain mappings with concrete keys build a real dict instead.
+    orig_dict = _core._PATCH_REGISTRATIONS.get(dict)
+    if orig_dict is not None:
+        from vlib import cbormodel as _cm
+
+        def dict_patch(*a, **kw):
+            if len(a) == 1 and not kw:
+                with NoTracing():
+                    src = a[0]
+                    plain = type(src) in (dict, _cm.frozendict, _cm.PairDict)
+                    if plain:
+                        items = list(src.items())
+                        if type(src) is _cm.PairDict or any(isinstance(k, CrossHairValue) for k, _ in items):
+                            return _cm.PairDict(items)
+                        d = {}
+                        for k, v in items:
+                            d[k] = v
+                        return d
+            return orig_dict(*a, **kw)
+
+        _core._PATCH_REGISTRATIONS[dict] = dict_patch
+
     def ljust(self, width, fill=b" "):
         n = len(self)
         if width <= n:
